@@ -8,7 +8,8 @@ TEXT = ('Modulators are advanced first in each chunk (before clocks, listeners a
         'Modulator::update call site driven by the key list of the modulator storage, whose keys are added with the insert '
         'and removed with the removal; Mapping::map clamps to [0,1], then eases, then interpolates; an unresolved modulator '
         'or listener yields None and the parameter keeps its last value; ids resolve through the generation-checked arena; '
-        'the storage swaps the element out around its own update. Waveform formulas and tween values are not decided.')
+        'the storage swaps the element out around its own update. Waveform formulas and tween values are not decided.'
+        ' The LFO advances and wraps its phase and sets value = offset + amplitude x waveform(phase); an unresolved tween target stays absent.')
 TECHNIQUE = 'MIR ordering / single-site / operand-flow rules'
 
 SR = 'backend::resources::SelfReferentialResourceStorage::<T>'
@@ -20,6 +21,8 @@ def run(ctx, R, tier):
     once(F, R)
     mapping(F, R)
     hold(F, R)
+    hold_parameter(F, R)
+    lfo(F, R)
     swap(F, R)
     c06.sib(F, R)
     c06.prev(F, R)
@@ -139,6 +142,80 @@ def hold(F, R):
         idx = calls_where(mv, lambda p, t: 'Index' in p and 'atomic_arena' in p)
         R.check(len(g) >= 1 and not idx, 'B.C17.lookup', 'modulator_value', 'modulator ids are not resolved through the generation-checked Arena::get',
                 detail='modulators.get(id.0)')
+
+
+def none_propagates(b, src):
+    """Problems with how body `b` treats the Option returned by the call whose description starts with `src`: on every
+    return path it is either passed on through Option::map / returned as it is, or tested (`?`, match, if let) with the
+    None side returning None and the Some side returning Some(..).  `unwrap_or(..)`-style defaults are violations."""
+    bad = []
+    seen = 0
+    for p in explore(b):
+        if p.end != 'return':
+            continue
+        ret = str(p.ret)
+        called = any((c or '').split('(')[0] and src.rstrip('(') == (c or '') for _, c in p.calls)
+        tested = [(desc, lab) for bb, desc, lab in p.decisions if src in desc]
+        if not called and src not in ret and not tested:
+            continue
+        seen += 1
+        if not tested:
+            ok = ret.startswith(src) or ('Option::<T>::map(' + src) in ret or ('Option::<T>::and_then(' + src) in ret
+            if not ok:
+                bad.append('%s yields %s: an absent value does not stay absent' % (b.path.split('::')[-1], ret[:90]))
+        else:
+            lab = tested[-1][1]
+            if lab in ('None', 'Break', '0') and not ('from_residual' in ret or ret.endswith('None') or 'Option::None' in ret):
+                bad.append('source absent but the result is %s' % ret[:90])
+            if lab in ('Some', 'Continue', '1') and 'Some' not in ret:
+                bad.append('source present but the result is %s' % ret[:90])
+    return bad, seen
+
+
+def hold_parameter(F, R):
+    """"...and holds its last value once the modulator is removed": Parameter::calculate_new_raw_value turns an absent
+    Value::raw_value (removed modulator, no listener) into None -- never into a default -- so that Parameter::update leaves
+    raw_value alone (B.C06.prev|hold)."""
+    b = F.body('parameter::Parameter::<T>::calculate_new_raw_value')
+    if not R.check(b is not None, 'B.C17.hold', 'anchor:calculate', 'Parameter::calculate_new_raw_value not found'):
+        return
+    bad, seen = none_propagates(b, 'value::Value::<T>::raw_value(')
+    R.check(not bad and seen >= 2, 'B.C17.hold', 'calculate_new_raw_value',
+            'Parameter::calculate_new_raw_value: %s (a parameter linked to a removed modulator must hold its last value)' % (bad or 'raw_value not consulted'),
+            detail={'paths': seen}, where=b.file)
+
+
+def lfo(F, R):
+    """The LFO is what its definition says: per update the phase advances by dt x frequency and is wrapped into [0, 1), and
+    the value is offset + amplitude x waveform(phase) -- which is what keeps it within offset +/- |amplitude| (the waveforms
+    are bounded by 1).  Decided on the shape of the two stores; the waveform shapes themselves are not decided."""
+    from ..paths import describe_rv, parse_term
+    b = F.body('<modulator::lfo::Lfo as modulator::Modulator>::update')
+    if not R.check(b is not None, 'B.C17.lfo', 'anchor', 'Lfo::update not found'):
+        return
+    st = [(bb, si, pretty_place(b, s['lhs']), describe_rv(b, s['rv'], depth=6, at=bb)) for bb, si, s in b.stmts()
+          if s['k'] == 'assign' and s['lhs']['p'] and pretty_place(b, s['lhs']) in ('(*self).phase', '(*self).value')]
+    ph = [x for x in st if x[2] == '(*self).phase']
+    va = [x for x in st if x[2] == '(*self).value']
+    adv = [x for x in ph if parse_term(x[3])[0] == 'Add' and '(*self).phase' in x[3] and 'dt' in x[3] and '.frequency' in x[3] and 'Mul(' in x[3]]
+    wrap = [x for x in ph if x[3] == 'Rem((*self).phase, 1.0)']
+    ok = len(ph) == 2 and len(adv) == 1 and len(wrap) == 1 and (adv[0][0], adv[0][1]) < (wrap[0][0], wrap[0][1]) \
+        and not b.in_loop(adv[0][0])
+    R.check(ok, 'B.C17.lfo', 'phase', 'Lfo::update does not advance the phase by dt * frequency and wrap it with %% 1.0 (stores: %s)' % [x[3][:60] for x in ph],
+            detail='phase += dt * frequency; phase %= 1.0', where=b.file)
+    okv = False
+    if len(va) == 1:
+        n1, a1 = parse_term(va[0][3])
+        if n1 == 'Add' and a1 and len(a1) == 2:
+            off = [x for x in a1 if '.offset' in x and 'Mul(' not in x]
+            mul = [x for x in a1 if x.startswith('Mul(')]
+            if len(off) == 1 and len(mul) == 1:
+                n2, a2 = parse_term(mul[0])
+                okv = a2 is not None and len(a2) == 2 and any('.amplitude' in x for x in a2) \
+                    and any('Waveform::value(' in x and '(*self).phase' in x for x in a2)
+        okv = okv and all(b.dominates(va[0][0], r) for r in b.return_blocks()) and bool(wrap) and (wrap[0][0], wrap[0][1]) < (va[0][0], va[0][1])
+    R.check(okv, 'B.C17.lfo', 'value', 'Lfo::update does not set value = offset + amplitude * waveform(phase) after advancing the phase (stores: %s)' % [x[3][:80] for x in va],
+            detail='value = offset + amplitude * waveform.value(phase)', where=b.file)
 
 
 def swap(F, R):
